@@ -133,6 +133,8 @@ def run(chk: Check, ctx: Any) -> None:
     chk.rule("C10-R4", "every add_loop/add_switch_case is followed by its remove_* on every path to a normal exit of the same method")
     chk.rule("C10-R5", "an import candidate is accepted only if it is a regular file (os.path.isfile), so that open() cannot be given a directory")
     chk.rule("C10-R6", "exceptions of the SsbScript parse listener are converted to ParseError when the error listener recorded syntax errors")
+    chk.rule("C10-R8", "each statically meaningless program shape of the specification is rejected with SsbCompilerError/ValueError, and degenerate valid programs "
+                       "(label-only routines, empty blocks, aliases, decimal targets) compile or fail with a documented error: whole compiler interpreted on the text")
     chk.rule("C10-R7", "the routines-in-imported-file check visits the tree that was parsed (not a second parse of the consumed token stream)")
 
     compile_f = repo.func(f"{COMPILER}:ExplorerScriptSsbCompiler.compile")
@@ -349,3 +351,8 @@ def run(chk: Check, ctx: Any) -> None:
         chk.decide("C10-R7", "has-routines:tree", True if ok else False if bad else None, compile_f,
                    f"the check visits `{norm(a) if a is not None else None}`: parsing again from the consumed token stream yields an empty tree, so routines in "
                    "an imported file are never seen", "visits the parsed tree", node=hv[0])
+
+    # ------------------------------------------------------------------ R8
+    from .c01 import rejection_forms
+    n = rejection_forms(chk, ctx, "C10-R8", None, degenerate=True)
+    chk.floor("C10-R8", "meaningless / degenerate programs compiled abstractly", n, 35)
